@@ -12,6 +12,7 @@ Oracle: an independent codec written from the documented format (57-letter alpha
 significant digit first, padded with the zero letter to 22 characters).
 """
 
+import importlib
 import uuid
 
 from ak import short_uuid as impl
@@ -33,7 +34,7 @@ ASSUMPTIONS = [
     "inputs are str objects (non-str arguments are outside the property)",
     "a defect depending on three or more specific digit positions is outside the quick bound",
 ]
-REQUIRED_FEATURES = ["int:two-digit", "int:boundary", "str:foreign-char", "str:wrong-length",
+REQUIRED_FEATURES = ["seq:history", "str:inserted-char", "int:two-digit", "int:boundary", "str:foreign-char", "str:wrong-length",
                      "str:frontier-accept", "str:frontier-reject", "str:canonical"]
 
 ALPHA = "23456789ABCDEFGHJKLMNPQRSTUVWXYZabcdefghijkmnopqrstuvwxyz"
@@ -74,7 +75,7 @@ def bounds(tier):
 
 def shards(tier):
     sh = [("ints2", i) for i in range(N)] + [("bound",), ("strings", 0), ("strings", 1), ("frontier",),
-                                               ("canonical",)]
+                                               ("canonical",), ("insert", 0), ("insert", 1), ("seq",)]
     if tier == "thorough":
         import itertools
         tr = set()
@@ -215,7 +216,7 @@ def run_shard(shard, tier, seed, acc):
             enc[s] = n
         return
     if kind == "strings":
-        bases = [0, LIMIT - 1, 0xde22bbe043bf448d9b832ee57e663285, B ** 21, 12345678901234567890]
+        bases = STR_BASES
         half = shard[1]
         for n in bases:
             good = ref_encode(n)
@@ -285,7 +286,70 @@ def run_shard(shard, tier, seed, acc):
                     acc.violation("C20:canonical-form", {"kind": "canon", "value": s, "int": n},
                                   "uuid_from_str does not accept a canonical/short spelling", obs, str(u))
         return
+    if kind == "insert":
+        # wrong length AND a foreign character: one character inserted into / appended to a valid encoding
+        half = shard[1]
+        for n in STR_BASES:
+            good = ref_encode(n)
+            for pos in range(N + 1):
+                for ci, ch in enumerate(FOREIGN + list("2z")):
+                    if ci % 2 != half:
+                        continue
+                    s = good[:pos] + ch + good[pos:]
+                    v = check_str(s, acc)
+                    acc.case(nontrivial=True, features=("str:inserted-char",),
+                             outcome="rejected" if v is None else v[0])
+                    _report(acc, v, {"kind": "str", "value": s})
+            for ch in FOREIGN:   # 21 valid characters + one foreign: right length by accident
+                for s in (good[:N - 1] + ch, ch + good[1:]):
+                    if half == 0:
+                        v = check_str(s, acc)
+                        acc.case(nontrivial=True, features=("str:foreign-char",),
+                                 outcome="rejected" if v is None else v[0])
+                        _report(acc, v, {"kind": "str", "value": s})
+        return
+    if kind == "seq":
+        # E2: the codec must have no memory - every sequence of <= 3 operations over a pool of values with
+        # different numbers of significant digits; each operation's result is compared with the reference
+        import itertools
+        ops = [("enc", n) for n in SEQ_POOL] + [("dec", n) for n in SEQ_POOL]
+        for ln in (2, 3):
+            for seq in itertools.product(ops, repeat=ln):
+                v = run_seq(seq, acc)
+                acc.case(nontrivial=True, features=("seq:history",), outcome="ok" if v is None else v[0])
+                if ln == 2 and seq[0][1] == LIMIT - 1:
+                    acc.sample({"seq": [[o, str(n)] for o, n in seq]})
+                _report(acc, v, {"kind": "seq", "ops": [[o, str(n)] for o, n in seq]})
+        return
     raise ValueError(shard)
+
+
+STR_BASES = [0, LIMIT - 1, 0xde22bbe043bf448d9b832ee57e663285, B ** 21, 12345678901234567890]
+SEQ_POOL = [LIMIT - 1, 0, 56, B ** 10 + 3, B ** 21 - 1, 0xde22bbe043bf448d9b832ee57e663285]
+
+
+def run_seq(seq, acc):
+    # every sequence starts from a pristine module state (module-level buffers, caches, default
+    # arguments are re-created), so a failing sequence is self-contained and replays identically
+    importlib.reload(impl)
+    for k, (op, n) in enumerate(seq):
+        acc.trans()
+        if op == "enc":
+            try:
+                got = impl.uuid_to_short_str(uuid.UUID(int=n))
+            except Exception as e:  # noqa
+                got = type(e).__name__
+            exp = ref_encode(n)
+        else:
+            try:
+                got = impl.uuid_from_short_str(ref_encode(n)).int
+            except Exception as e:  # noqa
+                got = type(e).__name__
+            exp = n
+        if got != exp:
+            return ("history-dependent-result", f"operation {k} ({op}) of a sequence gives a wrong result "
+                    f"although the codec is a pure function", str(got), str(exp))
+    return None
 
 
 def replay(case, acc):
@@ -297,6 +361,8 @@ def replay(case, acc):
         if a != b and sa == sb:
             acc.violation("C20:not-injective", case, "two UUIDs share one short string", [a, b, sa],
                           "distinct strings")
+    elif case["kind"] == "seq":
+        _report(acc, run_seq([(o, int(n)) for o, n in case["ops"]], acc), case)
     elif case["kind"] == "str":
         _report(acc, check_str(case["value"], acc), case)
     else:
